@@ -104,6 +104,12 @@ func ParamList(r *core.Rand, o PLOpts) *PList {
 	b.ows()
 	pl.Start = 0
 	n := r.Range(1, max(1, o.MaxItems))
+	manyKnown := false
+	if o.MaxItems >= 6 && r.Intn(12) == 0 {
+		// long list that names every known URI parameter and then repeats some
+		n = r.Range(7, 24)
+		manyKnown = true
+	}
 	if o.AllowZero && (o.Term == TermEOH || o.Term == TermInput) && r.Intn(25) == 0 {
 		n = 0
 	}
@@ -121,7 +127,9 @@ func ParamList(r *core.Rand, o PLOpts) *PList {
 			b.ows()
 		}
 		var it PLItem
-		if r.Intn(3) == 0 {
+		if manyKnown && i < len(knownURIParams) {
+			it.Name = RandCase(r, knownURIParams[i])
+		} else if r.Intn(3) == 0 || (manyKnown && r.Intn(2) == 0) {
 			it.Name = RandCase(r, knownURIParams[r.Intn(len(knownURIParams))])
 		} else {
 			it.Name = b.token(1, 8, chars)
@@ -151,7 +159,7 @@ func ParamList(r *core.Rand, o PLOpts) *PList {
 					case x == 1:
 						q = append(q, '\\', '\\')
 					case x == 2:
-						q = append(q, '\\', 'x')
+						q = append(q, '\\', []byte{'x', 0x01, 0x7f, 0x1f, 0x0b, ';', ',', ' ', '\t', 0x80}[r.Intn(10)])
 					case x < 6:
 						q = append(q, ' ')
 					case x == 6:
